@@ -32,7 +32,7 @@ import re
 from pathlib import Path
 
 from src.core.base import BaseLintContext, MultiLanguageLintRule
-from src.core.linter_utils import load_linter_config
+from src.core.linter_utils import load_linter_config, path_in_project
 from src.core.types import Violation
 from src.linter_config.directive_markers import has_bare_line_ignore
 from src.linter_config.rule_matcher import check_bracket_rules
@@ -145,7 +145,7 @@ class MethodPropertyRule(MultiLanguageLintRule):  # thailint: ignore[srp,dry]
         if not context.file_path:
             return False
 
-        file_path = Path(context.file_path)
+        file_path = path_in_project(context) or Path(context.file_path)
         return any(self._matches_pattern(file_path, pattern) for pattern in config.ignore)
 
     def _matches_pattern(self, file_path: Path, pattern: str) -> bool:
